@@ -1,21 +1,25 @@
 #!/bin/bash
 # tools/mutants_all.sh [Cxx ...|seeded|mutants] -- apply every kept mutant (mutants/<pid>/*.patch) and every seeded change
-# (seeded/<id>/patch.diff, property taken from its meta.json) to /repo in turn, run the named property's quick check, revert;
-# prints one line per patch: caught / MISSED / DOES-NOT-APPLY.  Run it only when nothing else is using /repo.
+# (seeded/<id>/patch.diff, property taken from its meta.json) in turn to a scratch worktree of /repo's HEAD under /tmp (never to
+# /repo itself; MUTANTS_WT names it, default /tmp/wt_mutants), run the named property's quick check against that tree
+# (VERIF_REPO), revert; prints one line per patch: caught / MISSED / DOES-NOT-APPLY / NEUTRALISED.  Several instances with
+# different MUTANTS_WT and selections can run side by side; remove the worktree afterwards (git -C /repo worktree remove --force).
 cd "$(dirname "$(readlink -f "$0")")/.."
-if ! git -C /repo diff --quiet; then echo "/repo dirty"; exit 3; fi
+wt=${MUTANTS_WT:-/tmp/wt_mutants}
+if [ ! -d "$wt" ]; then git -C /repo worktree add -q --detach "$wt" HEAD || exit 3; fi
+git -C "$wt" checkout -q --detach "$(git -C /repo rev-parse HEAD)"; git -C "$wt" checkout -q -- .
 sel=" $* "
 run_one() {  # label pid patch
   local label=$1 pid=$2 abs; abs=$(readlink -f "$3")
-  if ! git -C /repo apply --check "$abs" 2>/dev/null; then echo "$label: DOES-NOT-APPLY"; return; fi
-  git -C /repo apply "$abs"
-  out=$(./check "$pid" --tier quick 2>&1); rc=$?
+  if ! git -C "$wt" apply --check "$abs" 2>/dev/null; then echo "$label: DOES-NOT-APPLY"; return; fi
+  git -C "$wt" apply "$abs"
+  out=$(VERIF_REPO=$wt VERIF_EVIDENCE_DIR=/tmp/mutants_evidence_$$ ./check "$pid" --tier quick 2>&1); rc=$?
   demo=""
   if [ $rc -eq 0 ] && [ -f "$(dirname "$abs")/demo.py" ]; then
     # not flagged: does the change still violate the property on the current tree at all? (its own demonstration decides)
-    if (cd /repo && PYTHONPATH=/repo/src timeout 600 /venv/bin/python "$(dirname "$abs")/demo.py" >/dev/null 2>&1); then demo="demo-passes"; else demo="demo-fails"; fi
+    if (cd "$wt" && PYTHONPATH=$wt/src timeout 600 /venv/bin/python "$(dirname "$abs")/demo.py" >/dev/null 2>&1); then demo="demo-passes"; else demo="demo-fails"; fi
   fi
-  git -C /repo checkout -- .
+  git -C "$wt" checkout -q -- .
   if [ $rc -eq 1 ]; then echo "$label: caught by $pid ($(echo "$out" | grep -c VIOLATION) violation lines; first: $(echo "$out" | grep -m1 VIOLATION | sed 's/.*# //' | cut -c1-110))";
   elif [ $rc -eq 0 ] && [ "$demo" = "demo-passes" ]; then echo "$label: NEUTRALISED (applies, but its own demonstration no longer shows a violation on the current tree; $pid silent)";
   elif [ $rc -eq 0 ]; then echo "$label: MISSED by $pid"; else echo "$label: rc=$rc $(echo "$out" | tail -1)"; fi
